@@ -185,6 +185,12 @@ def ite(ex, c, a, b):
         return Sym(z3.If(c, term(a), term(b)), "str")
     if isinstance(a, EnumV) and isinstance(b, EnumV) and a.cls == b.cls:
         return EnumV(a.cls, ite(ex, c, a.value, b.value))
+    if isinstance(a, ColDigitsV) and isinstance(b, ColDigitsV):
+        x = ite(ex, c, a.c, b.c)
+        return ColDigitsV(x if isinstance(x, int) else term(x, "int"))
+    if isinstance(a, RowLetterV) and isinstance(b, RowLetterV):
+        x = ite(ex, c, a.r, b.r)
+        return RowLetterV(x if isinstance(x, int) else term(x, "int"))
     if isinstance(a, WellV) and isinstance(b, WellV):
         rr, cc = ite(ex, c, a.r, b.r), ite(ex, c, a.c, b.c)
         return WellV(rr if isinstance(rr, int) else term(rr, "int"), cc if isinstance(cc, int) else term(cc, "int"))
